@@ -115,7 +115,7 @@ def showSMsg : SMsg → String
   | .callReply => "reply"
 
 def showErr : FrameErr → String
-  | .eof => "eof" | .tooLarge => "toolarge" | .unalloc => "unalloc" | .undecodable => "undecodable"
+  | .eof => "eof" | .tooLarge => "toolarge" | .unalloc => "unalloc" | .undecodable => "undecodable" | .io => "io"
 
 def showRes : FrameRes Bytes → String
   | .ok m => s!"ok:{hex m}"
@@ -128,6 +128,7 @@ def parseRes? (s : String) : Option (FrameRes Bytes) :=
     | "err:toolarge" => some (.err .tooLarge)
     | "err:unalloc" => some (.err .unalloc)
     | "err:undecodable" => some (.err .undecodable)
+    | "err:io" => some (.err .io)
     | _ => none
 
 def showObs (o : List (FrameRes Bytes) × Nat) : String :=
@@ -305,14 +306,18 @@ def step (st : St) (op impl : String) : St × StepOut :=
       ({ st with frames := st.frames ++ [p], framesImpl := st.framesImpl ++ ((unhex? impl).getD []) },
        { model := hex f, nontrivial := true })
     | none => (st, { model := "bad-op" })
-  | ["frames", fmax, fchunks, fstream, fdec] =>
+  | "frames" :: fmax :: fchunks :: fstream :: fdec :: rest =>
+    -- `io=1`: the transport ends with an I/O error instead of EOF (`Codec.readFramesIo`)
+    let io := rest == ["io=1"]
+    if !(rest.isEmpty || io) then (st, { model := "bad-op" }) else
     match (field? fmax "max").bind (·.toNat?), (field? fchunks "chunks").bind natList?,
           (field? fstream "stream").bind unhex?, (field? fdec "dec").bind parseDecTable? with
     | some max, some sizes, some stream, some tbl =>
       let dec := decOf tbl
-      let whole := framesObs dec max [stream]
+      let whole0 := framesObs dec max [stream]
+      let whole := (whole0.1.map (ioEnd io), whole0.2)
       let pieces := splitBy stream sizes
-      let r := readFrames dec max pieces
+      let r := readFramesIo dec max pieces io
       let split := (r.1, streamLen pieces - streamLen r.2.1)
       let tr := r.2.2
       let maxReq := Codec.maxReq tr
@@ -331,7 +336,10 @@ def step (st : St) (op impl : String) : St × StepOut :=
                 (if so.1 == st.frames.map (fun p => match dec p with | some c => FrameRes.ok c | none => .err .undecodable) ++ [.err .eof]
                  then [] else ["frame-roundtrip"])
               else []
-            base ++ rt ++ (if al == "alloc=ok" then [] else ["frame-buffer-bounded"])
+            -- a transport error is reported as such (stop reason "frame_read_error"), never as a clean EOF
+            let ioc := if io && (so.1.getLast? == some (.err .eof) || wo.1.getLast? == some (.err .eof))
+              then ["frame-io-error-taken-for-eof"] else []
+            base ++ rt ++ ioc ++ (if al == "alloc=ok" then [] else ["frame-buffer-bounded"])
           | _, _, _ => ["frame-total"]
         | _ => ["frame-total"]
       ({ st with frames := [], framesImpl := [] },
